@@ -99,8 +99,21 @@ pub fn worker<E: Engine>(prop: &str, seed: u64, start: u64, stride: u64, total: 
             let _ = writeln!(l, "R {i}");
             let _ = l.flush();
         }
-        let trace = E::generate_at(prop, seed, i);
-        let s = E::run(&trace, false, false);
+        // A panic of the harness itself (outside the guarded app frames) is a harness error, never a violation.
+        let res = std::panic::catch_unwind(|| {
+            let trace = E::generate_at(prop, seed, i);
+            let s = E::run(&trace, false, false);
+            (trace, s)
+        });
+        let (trace, s) = match res {
+            Ok(x) => x,
+            Err(e) => {
+                let msg = e.downcast_ref::<String>().cloned().or_else(|| e.downcast_ref::<&str>().map(|s| s.to_string())).unwrap_or_default();
+                out.harness_errors.push((i, format!("the harness panicked: {msg}")));
+                i += stride;
+                continue;
+            }
+        };
         out.evals += 1;
         if s.stats.faults.is_empty() {
             out.fault_free_runs += 1;
